@@ -387,7 +387,7 @@ pub fn run(tier: &str) -> Result<Report, String> {
     let mut cases: Vec<(Arc<Bound>, Case)> = vec![];
     for b in nets.iter().filter(|b| which.contains(&b.name.as_str())) {
         let fams = label_families(b, 4);
-        let ctx_labels: Vec<(String, Vec<Mask>)> = vec![("p".into(), fams[0].1.wild[0].clone()), ("d".into(), fams[0].1.dom[0].clone()), ("dom_1".into(), fams[0].1.dom[1].clone()), ("unused".into(), fams[0].1.wild[1].clone())];
+        let ctx_labels: Vec<(String, Vec<Mask>)> = vec![("p".into(), fams[0].1.wild[0].clone()), ("d".into(), fams[0].1.dom[0].clone()), ("dom_1".into(), fams[0].1.dom[1].clone()), ("unused".into(), fams[0].1.wild[1].clone()), ("zz/p".into(), fams[0].1.wild[1].clone()), ("0/d".into(), fams[0].1.wild[1].clone())];
         for fmt in ["aeon", "bnet", "sbml"] {
             if model_file(&b.bn, fmt).is_none() {
                 continue;
